@@ -222,4 +222,10 @@ theorem C06_source_skeletons :
     Gen.Skel.Store_processLTXStreamFrame = Expected.Skel.Store_processLTXStreamFrame :=
   ⟨rfl, rfl⟩
 
+/-- further regenerated control skeletons (see Model/ExpectedSkel.lean): Server_streamDB, Server_streamLTX -/
+theorem C06_source_skeletons_2 :
+    Gen.Skel.Server_streamDB = Expected.Skel.Server_streamDB ∧
+    Gen.Skel.Server_streamLTX = Expected.Skel.Server_streamLTX :=
+  ⟨rfl, rfl⟩
+
 end LiteFSVerif.C06
